@@ -31,6 +31,7 @@ def REQUIRED(tier):  # noqa: N802
     return {"length_evaluations": 1000, "bye_replacements": 5000,
             "optimum_instances": 2 if tier == "quick" else 7,
             "asymmetric_matrices": 50, "size_window_plans": 10,
+            "every_even_team_count_plans": 100,
             "one_long_directed_trip_matrices": 20}
 
 
@@ -49,6 +50,11 @@ def plan(tier: str, seed: int):
         shards.append({"name": f"rnd{i}", "engine": "jit",
                        "args": {"mode": "random", "n": per},
                        "timeout": 3000})
+    # the random workload under NUMBA_DISABLE_JIT=1 (numpy scalar arithmetic
+    # in the storage types instead of machine integers)
+    shards.append({"name": "py0", "engine": "py", "timeout": 3000,
+                   "args": {"mode": "random",
+                            "n": 60 if tier == "quick" else 1500}})
     return shards
 
 
@@ -290,6 +296,11 @@ def random_shard(ctx, count):
             n, rounds = [(64, 1), (66, 1), (128, 1), (130, 1), (4, 43),
                          (4, 86), (6, 52)][int(rng.integers(7))]
             ctx.count("size_window_plans")
+        elif it % 7 == 5:
+            # EVERY even team count from 14 to 62 in turn, one or two rounds
+            n = 14 + 2 * ((it // 7 + ctx.shard_idx * 7) % 25)
+            rounds = 1 + (it // 7) % 2
+            ctx.count("every_even_team_count_plans")
         ll = rounds * n - 1
         cfg = (rounds, 1, min(3, ll), 1, min(3, ll), min(1, ll), ll)
         D = (n - 1) * rounds
